@@ -42,10 +42,11 @@ VARIABLES
   si,       \* [Threads -> stream being set up (0..3)]
   ctab,     \* [Threads -> child's table, <<>> before fork]
   cpc,      \* [Threads -> child's control point]
+  ptodo,    \* [Threads -> descriptors the parent thread still has to close after its fork]
   images,   \* set of tables of the program images started so far (they live on)
   viol
 
-vars == <<fdt, npipes, pc, efp, pend, cend, si, ctab, cpc, images, viol>>
+vars == <<fdt, npipes, pc, efp, pend, cend, si, ctab, cpc, ptodo, images, viol>>
 
 StdObj(i) == <<0, CASE i = 0 -> "s0" [] i = 1 -> "s1" [] OTHER -> "s2">>   \* pipe ids start at 1
 InitTab == [fd \in 0..2 |-> [obj |-> StdObj(fd), cx |-> FALSE]]
@@ -65,7 +66,7 @@ Init ==
   /\ pend = [t \in Threads |-> [i \in 0..2 |-> -1]]
   /\ cend = [t \in Threads |-> [i \in 0..2 |-> -1]]
   /\ si = [t \in Threads |-> 0]
-  /\ ctab = [t \in Threads |-> <<>>] /\ cpc = [t \in Threads |-> "none"]
+  /\ ctab = [t \in Threads |-> <<>>] /\ cpc = [t \in Threads |-> "none"] /\ ptodo = [t \in Threads |-> {}]
   /\ images = {} /\ viol = {}
 
 \* pipe(): the two lowest free descriptors
@@ -76,7 +77,7 @@ DoPipe(r, w) ==
   /\ fdt' = With(With(fdt, r, [obj |-> <<npipes + 1, "r">>, cx |-> AtomicCloexec]),
                  w, [obj |-> <<npipes + 1, "w">>, cx |-> AtomicCloexec])
 
-U(t) == UNCHANGED <<ctab, cpc, images, viol>>
+U(t) == UNCHANGED <<ctab, cpc, ptodo, images, viol>>
 
 EfpPipe(t) ==
   /\ pc[t] = "efp_pipe"
@@ -118,15 +119,16 @@ Fork(t) ==
   /\ ctab' = [ctab EXCEPT ![t] = fdt]          \* the whole table, as it is right now
   /\ cpc' = [cpc EXCEPT ![t] = "c_close_efp"]
   /\ pc' = [pc EXCEPT ![t] = "p_close"]
+  /\ ptodo' = [ptodo EXCEPT ![t] = ({cend[t][i] : i \in 0..2} \cup {efp[t][2]}) \ {-1}]
   /\ UNCHANGED <<fdt, npipes, efp, pend, cend, si, images, viol>>
 
 \* parent: drop the child ends and the status write end (one close per step)
 ParentClose(t) ==
   /\ pc[t] = "p_close"
-  /\ LET todo == (({cend[t][i] : i \in 0..2} \cup {efp[t][2]}) \cap DOMAIN fdt) \ {-1} IN
-     IF todo = {} THEN pc' = [pc EXCEPT ![t] = "p_read"] /\ UNCHANGED fdt
-     ELSE fdt' = Without(fdt, Min(todo)) /\ UNCHANGED pc
-  /\ UNCHANGED <<npipes, efp, pend, cend, si>> /\ U(t)
+  /\ IF ptodo[t] = {} THEN pc' = [pc EXCEPT ![t] = "p_read"] /\ UNCHANGED <<fdt, ptodo>>
+     ELSE LET fd == Min(ptodo[t]) IN
+          /\ fdt' = Without(fdt, fd) /\ ptodo' = [ptodo EXCEPT ![t] = @ \ {fd}] /\ UNCHANGED pc
+  /\ UNCHANGED <<npipes, efp, pend, cend, si, ctab, cpc, images, viol>>
 
 \* does anybody still hold the write end of pipe p
 WriteEndHeld(p) ==
@@ -143,7 +145,7 @@ ParentRead(t) ==
   /\ UNCHANGED <<npipes, efp, pend, cend, si>> /\ U(t)
 
 \* ---------------------------------------------------------------- the forked child of thread t
-CU == UNCHANGED <<fdt, npipes, pc, efp, pend, cend, si>>
+CU == UNCHANGED <<fdt, npipes, pc, efp, pend, cend, si, ptodo>>
 
 ChildCloseEfp(t) ==
   /\ cpc[t] = "c_close_efp"
@@ -182,7 +184,7 @@ ChildExec(t) ==
 ImageExits ==
   /\ ChildrenExit
   /\ \E im \in images : images' = images \ {im}
-  /\ UNCHANGED <<fdt, npipes, pc, efp, pend, cend, si, ctab, cpc, viol>>
+  /\ UNCHANGED <<fdt, npipes, pc, efp, pend, cend, si, ctab, cpc, ptodo, viol>>
 
 ParentStdOk == \A i \in 0..2 : i \in DOMAIN fdt /\ fdt[i].obj = StdObj(i)
 
